@@ -135,6 +135,22 @@ def run(ck: Check):
                 ck.violation(f"[{atom}] monotone test with core {core} of the {len(red)} reducible atoms of {data!r}: final file "
                              f"{run_.final!r} (exc={run_.exc}), expected exactly the core with the protected text: {want!r}",
                              {"atom": atom, "data": data.hex(), "core": core})
+    # a quarter / half a million atoms with the DEFAULT options (the largest chunk size is then bounded by the file only):
+    # the count stays logarithmic in n
+    from scale import _run
+    for n_big, core_i in ((1 << 18, None), (1 << 19, 123457)) if quick else ((1 << 18, None), (1 << 19, 123457), (1 << 20, 7), (300001, 299999)):
+        atoms_big = [b"a%d;" % i for i in range(n_big)]
+        data_big = b"".join(atoms_big)
+        needle = None if core_i is None else atoms_big[core_i]
+        run_b = _run("minimize", data_big, (lambda d: True) if needle is None else (lambda d, needle=needle: needle in d), atom="symbol",
+                     cap=2000, watchdog=600.0, light=True)
+        m_b = 0 if needle is None else 1
+        ck.count("huge")
+        ck.nontrivial(("huge", n_big, m_b))
+        if run_b.exc is not None or run_b.final != (needle or b"") or run_b.tests > bound(n_big, m_b):
+            ck.violation(f"minimize with default options on {n_big} symbol atoms, core of {m_b}: {run_b.tests} tests (bound {bound(n_big, m_b)}), "
+                         f"exc={run_b.exc}, final file {len(run_b.final)} bytes (the core has {len(needle or b'')})",
+                         {"atoms": n_big, "core": core_i, "tests": run_b.tests, "bound": bound(n_big, m_b)})
     # atoms whose CRC-32 / Adler-32 collide (a weakened de-dup key must not drop a candidate)
     for words in ([b"plumless", b"buckeroo"], [b"plumless", b"buckeroo", b"x", b"y", b"z", b"w"],
                   [b"a", b"plumless", b"b", b"buckeroo"]):
